@@ -27,9 +27,18 @@ EXTRA = [
     "$['\\b\\f\\n\\r\\t\\/']", "$[\"\\ud83d\\ude00\"]", "$.😀", "$['a', \"b\", 'a\"b']", "$[1:2]", "$[:2]", "$[1:]", "$[::2]", "$[::-1]", "$[:]",
     "$[1:2:3, :, ::, 0]", "$..[1:2]", "$[?count(@[1:]) == 1]", "$[?match(@.a, 'x\\\\.y')]", "$[?search(@, \"a'b\")]",
     "$[?length(@.a) == length(@.b)]", "$[?value(@..a) == null && !match(@.b, 'c')]", "$[?@[?@[?@.a == $.b]]]", "$[?@.a, ?@.b]",
+    # number literals that need 16 or 17 significant digits (outside the model's exact range: judged on behaviour)
+    "$[?@ == 0.30000000000000004]", "$[?@ == 1.0000000000000002]", "$[?@ < 0.9999999999999999]", "$[?@ == 2251799813685249.5]",
+    "$[?@ != 123456789.12345679]", "$[?@ >= 1.0000000000000001e-7]", "$[?@ == 9007199254740993]", "$[?@ == 1e22]", "$[?@ == 12345678901234567890]",
     "$[-5:]", "$[-9:2]", "$[:-9]", "$[0][-5:]", "$..[-3:]", "$[-2:]", "$[-1:-9]", "$[9:]", "$[0][-4:-1]", "$.a[-7:]", "$[5][-3:1]", "$[?@[-3:]]",
     "$[?gl2(!@.a)]" if False else "$[?@['a b'] == 1]", "$[?$['\\n'] == @['\\t']]", "$[?@[0] == $[-1]]", "$[?true == false]", "$[?null == @]",
 ]
+
+
+# witness values for number literals beyond 15 significant digits (used on the Python side only: "behaves alike")
+FLOAT_WITNESS = [[0.30000000000000004, 0.3, 1.0000000000000002, 1.0, 0.9999999999999999, 2251799813685249.5, 2251799813685249.0, 2251799813685250.0,
+                  1e-7, 1.0000000000000001e-7, 123456789.12345679, 123456789.12345678, 9007199254740993, 9007199254740992, 1e22, 10**22 + 1,
+                  12345678901234567890, 12345678901234567168]]
 
 
 def _enc_ok(d):
@@ -59,7 +68,7 @@ def run(chk: core.Check, tier: str, seed: int) -> None:
     pool_py = [d for d in pool if _enc_ok(d)]
     recs = []
     for q in cands:
-        r = impl.rec_str(jp, q, pool_enc, docs=pool_py)
+        r = impl.rec_str(jp, q, pool_enc, docs=pool_py + FLOAT_WITNESS)
         if r is not None:
             recs.append(r)
     # serialisation inside function arguments: a user function with a LogicalType parameter takes any logical expression
